@@ -754,9 +754,15 @@ func (env *Env) call(e *SExpr) TV {
 		return mathInt(env.eval(e.Args[0]).V.(Sl).Off)
 	case "typeid":
 		a := env.eval(e.Args[0])
+		if _, ok := a.V.(If); !ok {
+			sfail("typeid(x): x is not an interface value")
+		}
 		return mathInt(a.V.(If).Typ)
 	case "ifaceval":
 		a := env.eval(e.Args[0])
+		if _, ok := a.V.(If); !ok {
+			sfail("ifaceval(x): x is not an interface value")
+		}
 		return mathInt(a.V.(If).Val)
 	case "zero":
 		// zero(): the zero value of the (single) type parameter of the generic function under verification
